@@ -322,7 +322,7 @@ func ruleDivisors(c *core.Ctx, rule string) {
 				"the divisor can be zero ("+strings.Join(dedup(why), "; ")+") and no branch outcome on the way excludes it: integer divide by zero for small inputs (e.g. a new file shorter than the partition count)")
 		})
 	}
-	c.Floor(rule, "integer divisions with non-constant divisor", nDiv, 8)
+	c.Floor(rule, "integer divisions with non-constant divisor", nDiv, 3)
 	c.Floor(rule, "divisors with a possibly-zero definition", nSusp, 1)
 }
 
@@ -516,16 +516,8 @@ func runC12(c *core.Ctx) {
 			c.Check(p == nil, "R12.2", core.FnName(apply), "OldOffset += ctrl.Seek on every success path", core.InstrPos(rs.Ret),
 				"the relative seek is applied", "a control can be applied without its seek being added to OldOffset").Path = c.P.PathStrings(p)
 			// add phase: when len(Add) > 0 the offset advances by it
-			posLen := func(b, s *ssa.BasicBlock) bool {
-				ifi, ok := b.Instrs[len(b.Instrs)-1].(*ssa.If)
-				if !ok {
-					return false
-				}
-				bo, ok := ifi.Cond.(*ssa.BinOp)
-				if !ok || bo.Op != token.GTR {
-					return false
-				}
-				cl, ok := core.StripConv(bo.X).(*ssa.Call)
+			isLenAdd := func(v ssa.Value) bool {
+				cl, ok := core.StripConv(v).(*ssa.Call)
 				if !ok {
 					return false
 				}
@@ -533,10 +525,12 @@ func runC12(c *core.Ctx) {
 				if !ok || bi.Name() != "len" {
 					return false
 				}
-				if _, nm, ok := core.FieldOf(cl.Call.Args[0]); !ok || nm != "Add" {
-					return false
-				}
-				return s == b.Succs[1] // drop the "nothing to add" outcome
+				_, nm, ok := core.FieldOf(cl.Call.Args[0])
+				return ok && nm == "Add"
+			}
+			posLen := func(b, s *ssa.BasicBlock) bool {
+				// drop the "nothing to add" outcome, however the test is written
+				return outcomeEdge(b, s, token.LEQ, isLenAdd, isConstInt(0)) || outcomeEdge(b, s, token.LSS, isLenAdd, isConstInt(1))
 			}
 			p2 := core.FindPathSkipping(apply, nil, isInstr(rs.Ret), adv("Add", true), posLen)
 			c.Check(p2 == nil, "R12.2", core.FnName(apply), "OldOffset += len(ctrl.Add) when there is an add", core.InstrPos(rs.Ret),
